@@ -18,6 +18,7 @@ EXPLANATION = (
 
 
 def run(ctx: Ctx) -> None:
+    ctx.rule('R-MEMO', 'a value kept across calls (closure / module / instance table) is keyed by everything it was computed from')
     ctx.rule('R-LOSSLESS-L1', 'each word is placed exactly once per iteration, unmodified or escaped')
     ctx.rule('R-LOSSLESS-L3', 'accumulators reset in a loop are flushed after it')
     ctx.rule('R-LOSSLESS-L4', 'every wrapped line reaches the output; pops paired with merges')
@@ -32,3 +33,4 @@ def run(ctx: Ctx) -> None:
     ctx.run(wrap.check_accounting)
     ctx.run(wrap.check_paragraph_independence)
     ctx.run(hazard.check_escape_action)
+    ctx.run(wrap.check_wrapping_memos)
